@@ -136,6 +136,9 @@ fn dispatch(id: &str, r: &Report) {
         "C05" => c05::run(r),
         "C06" => c06::run(r),
         "C07" => c07::run(r),
+        "C08" => derive_checks::c08(r),
+        "C09" => derive_checks::c09(r),
+        "C10" => derive_checks::c10(r),
         "C11" => c11::run(r),
         "C12" => c12::run(r),
         "C13" => c13::run(r),
